@@ -152,8 +152,8 @@ def f_norm(F, res):
     g = with_helpers(F, "tx3_resolver::trp::parse_resolve_request")
     du = mir.DefUse(g)
     LOOKUPS = ("get", "get_key_value", "contains_key", "remove", "remove_entry", "get_mut", "entry")
-    from ..common import with_closures
-    g_bodies = with_closures(F, g)
+    from ..common import deep_bodies
+    g_bodies = deep_bodies(F, "tx3_resolver::trp::parse_resolve_request")
     # (the match may also run the other way round: a walk over the declared table that looks each declared key up among the
     # supplied entries, a serde_json map)
     gets = [(bi, t) for gb in g_bodies for bi, t in mir.calls(gb)
